@@ -32,12 +32,12 @@ def parseList {α} (p : String → Option α) (s : String) : Option (List α) :=
   if s == "-" then some [] else (s.splitOn ",").mapM p
 
 /-- what the model can execute (anything else is `bad-op`) -/
-def cbSupported (r : CbRule) : Bool := r.strat == 1 || r.strat == 2
+def cbSupported (r : CbRule) : Bool := r.strat ≤ 2
 def flowSupported (r : FlowRule) : Bool :=
   r.rel == 0 && r.ref == 0 && (r.tcs == 0 || (r.tcs == 1 && r.cb == 0 && r.thr > 0))
 
-def hotSupported (r : HotRule) : Bool := r.mtype == 1 && r.cb == 0 && r.pidx == 0 && r.items != 1
-def hotInert (r : HotRule) : Bool := r.cb == 0 && r.thr ≥ bigThr && (r.items != 2 || r.sthr ≥ bigThr)
+def hotSupported (r : HotRule) : Bool := r.mtype == 1 && r.cb ≤ 1 && r.pidx == 0 && r.items != 1
+def hotInert (r : HotRule) : Bool := r.cb ≤ 1 && r.thr ≥ bigThr && (r.items != 2 || r.sthr ≥ bigThr)
 def cbInert (r : CbRule) : Bool := r.strat == 2 && r.thr ≥ bigThr
 def flowInert (r : FlowRule) : Bool := r.tcs == 0 && r.cb == 0 && r.thr ≥ bigThr
 
@@ -71,7 +71,7 @@ def assoc {α} (xs : List (Nat × α)) (k : Nat) (v : α) : List (Nat × α) := 
 def nodeOf (s : St) (x : Nat) : Sentinel.LA.Arr Nat := lookup (Sentinel.LA.mk 20 500 s.now) s.nodes x
 
 /-- one entry (with its completion) on resource `x` -/
-def entry (s : St) (x : Nat) (err : Bool) (arg : Nat) : St × String :=
+def entry0 (s : St) (x : Nat) (err : Bool) (arg : Nat) (rt : Nat) : St × String :=
   let node := nodeOf s x
   let s := { s with nodes := assoc s.nodes x node }
   let (fb, w, fcs) := flowScan s.now (flowRead node s.now) (s.flow.ctls x)
@@ -79,7 +79,8 @@ def entry (s : St) (x : Nat) (err : Bool) (arg : Nat) : St × String :=
   match fb with
   | some id => (s, s!"block flow {id}")
   | none =>
-    let (hb, hcs) := if arg = 0 then (none, s.hot.ctls x) else hotScan s.now arg (s.hot.ctls x)
+    let (hb, hw, hcs) := if arg = 0 then (none, 0, s.hot.ctls x) else hotScan s.now arg (s.hot.ctls x)
+    let w := w + hw
     let s := { s with hot := s.hot.set x hcs }
     match hb with
     | some id => (s, s!"block hot {id}")
@@ -91,9 +92,16 @@ def entry (s : St) (x : Nat) (err : Bool) (arg : Nat) : St × String :=
       -- passed every check: the stat slots count the pass, the completion feeds the breakers
       let node := (Sentinel.LA.addAt node s.now 1).1
       let fcs := fcs.map (flowRecordPass s.now)
-      let ccs := ccs.map (cbComplete s.now err)
+      -- the request takes `rt` ms (the clock moves), then completes
+      let s := { s with now := s.now + rt }
+      let ccs := ccs.map (cbComplete s.now rt err)
       ({ s with cb := s.cb.set x ccs, flow := s.flow.set x fcs, nodes := assoc s.nodes x node },
         if w = 0 then "pass" else s!"pass wait {w}")
+
+/-- the clock ends at entry time + `rt` whether the request was refused or not (both phases keep the same clock) -/
+def entry (s : St) (x : Nat) (err : Bool) (arg : Nat) (rt : Nat) : St × String :=
+  let (s', r) := entry0 s x err arg rt
+  ({ s' with now := s.now + rt }, r)
 
 /-- oracle bookkeeping for one reload of a module: per resource, was the list left unchanged (inert rules aside),
     and does the `NoSteal` hypothesis hold -/
@@ -166,11 +174,14 @@ def stepCore (s : St) (ts : List String) : St × Option String :=
     | some t => ({ s with now := t }, none)
     | none => (s, some "bad-op")
   | ["e", x, err] => match x.toNat?, err.toNat? with
-    | some x, some err => let (s, r) := entry s x (err != 0) 0; (s, some r)
+    | some x, some err => let (s, r) := entry s x (err != 0) 0 0; (s, some r)
     | _, _ => (s, some "bad-op")
   | ["e", x, err, a] => match x.toNat?, err.toNat?, a.toNat? with
-    | some x, some err, some a => let (s, r) := entry s x (err != 0) a; (s, some r)
+    | some x, some err, some a => let (s, r) := entry s x (err != 0) a 0; (s, some r)
     | _, _, _ => (s, some "bad-op")
+  | ["e", x, err, a, rt] => match x.toNat?, err.toNat?, a.toNat?, rt.toNat? with
+    | some x, some err, some a, some rt => let (s, r) := entry s x (err != 0) a rt; (s, some r)
+    | _, _, _, _ => (s, some "bad-op")
   | [op, arg] =>
     match op.splitOn "." with
     | [m, "load"] => doLoad false s m false none arg
